@@ -10,6 +10,9 @@ CHECKS = {
     "C07": ("property-based testing (proptest choice sequences): coverage oracle + deletion metamorphic relation over generated files with injected malformed lines",
             "Generated-input search: thousands of generated one-statement-per-line files with malformed lines of 14 kinds at random positions (LF/CRLF, with/without final newline, include split); every content line must be covered by a node or an error on it, and all other lines must parse as in the file with the malformed lines deleted. Exploration, not proof: absence of a violation is only established for the cases generated.",
             "Trusts the harness's own line arithmetic (recomputed from raw offsets) and the generator's list of malformed-line kinds.", "5/C07"),
+    "C08": ("exhaustive enumeration of a decode table + property-based testing of folding: differential execution against an RV32IM reference interpreter",
+            "The decode table (every mnemonic the manual defines x operand forms x boundary registers/immediates) is enumerated exhaustively; each built node is executed next to the official meaning on the reference machine. Folding is compared with the machine ALU on a 40x40 boundary grid for all 18 operators (exhaustive), through the value analysis on a 12x12 grid for 27 mnemonics, and on random 32-bit pairs, in the overflow-checked and the release profile.",
+            "Trusts the reference machine (hand-computed vectors + i128 differential in its unit tests). Forms without a meaning in the manual are listed as not checked.", "5/C08"),
     "C09": ("property-based testing: differential against a reference tokenizer + renderer source map, position arithmetic recomputed from the text",
             "Generated-input search over programs rendered with every surface freedom; each token, node, operand, parse error and diagnostic location is compared with a reference tokenizer and the renderer's source map. Exploration.",
             "Trusts the reference tokenizer (written from the documented token classes) and the renderer's source map (unit-tested).", "5/C09"),
